@@ -23,7 +23,7 @@ BOOLS = {
     'urlencode_quote_via_is_quote_plus': True, 'route_path_script_quoted': True,
     'resource_path_script_quoted': True, 'static_path_script_quoted': True,
     'current_route_path_script_quoted': True, 'join_elements_key_stringified': False,
-    'static_external_uses_urljoin': True,
+    'static_external_uses_urljoin': False,
 }
 TABLES = {'implied_ports': [('https', '443'), ('http', '80')], 'elided_ports': [('https', '443'), ('http', '80')]}
 
@@ -369,7 +369,7 @@ def extract(src, problems):
             if isinstance(st, ast.ImportFrom) and st.module == 'urllib.parse':
                 for al in st.names:
                     imp[al.asname or al.name] = al.name
-        for nm in ('quote', 'urljoin', 'urlparse', 'urlunparse'):
+        for nm in ('quote', 'urlparse', 'urlunparse'):
             if imp.get(nm) != nm:
                 raise Bad('config/views.py no longer imports %s from urllib.parse' % nm)
         qc = [c for c in _calls(fn, 'quote') if isinstance(c.func, ast.Name)]
@@ -385,6 +385,8 @@ def extract(src, problems):
             raise Bad('result = ... in StaticURLInfo.generate')
         how = ast.unparse(res[0])
         if how == 'urljoin(url, subpath)':
+            if imp.get('urljoin') != 'urljoin':
+                raise Bad('config/views.py no longer imports urljoin from urllib.parse')
             bools['static_external_uses_urljoin'] = True
         elif how == 'url + subpath':
             bools['static_external_uses_urljoin'] = False
